@@ -201,7 +201,7 @@ pub struct RealRun {
 /// Parse what `report_process` and the logger print.
 fn parse_outcome(exit_code: Option<i32>, stdout: &str, stderr: &str, timed_out: bool) -> Outcome {
     if timed_out {
-        return Outcome::Panic("verif: subprocess did not finish within 30 s at subprocess:0".to_owned());
+        return Outcome::Panic("verif: subprocess did not finish within 180 s at subprocess:0".to_owned());
     }
     match exit_code {
         Some(0) | Some(1) => {}
@@ -307,7 +307,7 @@ pub fn run_binary(root: &Path, args: &[String], hash_seed: u64) -> Result<RealRu
         match child.try_wait() {
             Ok(Some(status)) => break Some(status),
             Ok(None) => {
-                if started.elapsed() > Duration::from_secs(30) {
+                if started.elapsed() > Duration::from_secs(180) {
                     let _ = child.kill();
                     let _ = child.wait();
                     timed_out = true;
